@@ -50,6 +50,11 @@ def import_statham():
     """Import the library from REPO's working tree (asserted)."""
     if REPO not in sys.path:
         sys.path.insert(0, REPO)
+    if "statham" not in sys.modules:
+        # locks created by the library (or what it imports) become cooperative
+        from sim import sched
+
+        sched.install_coop_locks()
     import statham  # noqa
 
     path = os.path.realpath(statham.__file__)
